@@ -249,3 +249,85 @@ func c04SharedDependencyOrders(c *Ctx) {
 		box.Remove()
 	}
 }
+
+// c04ManyTargets: "every build ends" for builds that are LARGE rather than intricate: 40 / 70 / 130 / 260 trivial
+// targets (wide: all independent; deep: one chain; and a wide one whose last target fails), num_workers 1 / default,
+// plain console as every run of the real binary here (no terminal). The build must end within the ceiling with the
+// exit status of its targets and every command must have run once. Internal queues and message channels with fixed
+// capacities (the worker pool's job queue, the task UI's message channel) are crossed by these sizes.
+func c04ManyTargets(c *Ctx) {
+	grog, err := vc.BuildGrog("grog", nil)
+	if err != nil {
+		c.R.BrokenCheck("%v", err)
+		return
+	}
+	base, cleanup := scratchBase(c, "c04many")
+	defer cleanup()
+	type scen struct {
+		n       int
+		shape   string
+		workers int
+	}
+	var scs []scen
+	sizes := []int{40, 70, 130}
+	if c.Thorough {
+		sizes = append(sizes, 260, 520)
+	}
+	for _, n := range sizes {
+		for _, shape := range []string{"wide", "deep", "wide-last-fails"} {
+			for _, w := range []int{1, 0} {
+				scs = append(scs, scen{n, shape, w})
+			}
+		}
+	}
+	var wg sync.WaitGroup
+	sem := make(chan struct{}, 6)
+	for _, sc := range scs {
+		wg.Add(1)
+		sem <- struct{}{}
+		go func(sc scen) {
+			defer wg.Done()
+			defer func() { <-sem }()
+			name := fmt.Sprintf("%d targets, %s, num_workers=%d (0 = default)", sc.n, sc.shape, sc.workers)
+			src := &hist.Source{Files: map[string]hist.File{"p/in.txt": {Content: "in"}}}
+			if sc.workers > 0 {
+				src.Toml = fmt.Sprintf("num_workers = %d\n", sc.workers)
+			}
+			for i := 0; i < sc.n; i++ {
+				t := hist.Target{Pkg: "p", Name: fmt.Sprintf("t%03d", i), Inputs: []string{"in.txt"}, Command: traceStart}
+				if sc.shape == "deep" && i > 0 {
+					t.Deps = []string{fmt.Sprintf(":t%03d", i-1)}
+				}
+				if sc.shape == "wide-last-fails" && i == sc.n-1 {
+					t.Command = traceStart + "\nexit 3"
+				}
+				src.Targets = append(src.Targets, t)
+			}
+			box, err := hist.NewBox(base)
+			if err != nil {
+				c.R.BrokenCheck("%v", err)
+				return
+			}
+			defer box.Remove()
+			src.Materialize(box.WS(), nil)
+			rr := box.Run(grog, hist.RunOpts{Args: []string{"build", "//..."}, Ceiling: 120e9})
+			replay := map[string]any{"scenario": name, "exit": rr.Exit, "timed_out": rr.TimedOut, "commands_started": len(rr.Started()), "grog_output_tail": tail(rr.Output, 500)}
+			wantExit := 0
+			if sc.shape == "wide-last-fails" {
+				wantExit = 1
+			}
+			switch {
+			case rr.TimedOut:
+				c.R.Violate(vc.Violation{Sig: "C04:build-hangs:many-targets", Detail: fmt.Sprintf("%s: grog build //... did not end within 120 s; %d commands had started", name, len(rr.Started())), Replay: replay})
+			case (rr.Exit != 0) != (wantExit != 0):
+				c.R.Violate(vc.Violation{Sig: "C04:wrong-exit-status:many-targets", Detail: fmt.Sprintf("%s: grog exited %d: %s", name, rr.Exit, tail(rr.Output, 300)), Replay: replay})
+			case len(rr.Started()) != sc.n:
+				c.R.Violate(vc.Violation{Sig: "C04:not-every-target-executed:many-targets", Detail: fmt.Sprintf("%s: %d of %d commands ran (exit %d)", name, len(rr.Started()), sc.n, rr.Exit), Replay: replay})
+			}
+			c.R.AddCounts(1, 1, 1, 1)
+			c.R.Outcome(fmt.Sprintf("many|%s|exit=%d", sc.shape, rr.Exit))
+			c.R.Nontrivial("many|" + name)
+		}(sc)
+	}
+	wg.Wait()
+}
